@@ -10,7 +10,7 @@
    every operation with a non-negative amount, every sequence of operations of any length. *)
 Require Import Base Constants Fixed Curve Bank BankOps Risk TransferFee Handlers FixedLemmas BankLemmas LedgerLemmas SolvencyWorld HandlerWorld.
 Require Import TxConstants AcctLifecycle LifecycleLedger.
-Require Import PrivGen Deleverage PurgeLedger.
+Require Import PrivGen Deleverage PurgeLedger SolvencyHandlers DeleverageWorld.
 Local Open Scope Z_scope.
 
 (* the invariant holds after every sequence of operations (failed operations roll back) *)
@@ -96,6 +96,13 @@ Theorem C02_purge_effect_on_totals :
     b_asv (hb_b hb') = b_asv (hb_b hb) /\ b_lsv (hb_b hb') = b_lsv (hb_b hb) /\ hb_vault hb' = hb_vault hb.
 Proof. exact purge_effect_on_totals. Qed.
 
+(* a whole forced-deleverage transaction [start_deleverage; withdrawals / repayments of any number; end_deleverage]
+   keeps the instruction-level ledger *)
+Theorem C02_deleverage_tx_keeps_ledger :
+  forall w c a r signs steps w' c',
+  Forall dstep_ok steps -> HOk2 w -> dv_tx w c a r signs steps = Ok (w', c') -> HLedger w'.
+Proof. exact dv_tx_keeps_ledger. Qed.
+
 Theorem C02_initial_world :
   forall banks n now pf, Forall (fun b => wf_sv b /\ 0 <= b_tas b /\ 0 <= b_tls b) banks ->
   Ledger (mkBW banks (repeat la_empty n) now pf).
@@ -111,3 +118,4 @@ Print Assumptions C02_transfer_keeps_position_sums.
 Print Assumptions C02_close_removes_only_empty_positions.
 Print Assumptions C02_purge_keeps_ledger.
 Print Assumptions C02_purge_effect_on_totals.
+Print Assumptions C02_deleverage_tx_keeps_ledger.
